@@ -1404,3 +1404,60 @@ def r6_6(rep):
     rep.need(ti, "TemplateInstantiation::codegen")
     gate = [c for b in ti for c in b.calls(lambda n: n["k"] == "MCall" and n["name"] == "uses_any_template_parameters")]
     rep.check(bool(gate), "instantiation-gate-present", "the assertion is skipped through BindgenContext::uses_any_template_parameters", ti[0].loc(ti[0].root))
+
+
+@RULES.rule("R6.7", "the \"uses a template parameter\" sets only ever receive template parameters", floor=4)
+def r6_7(rep):
+    """`TemplateInstantiation::codegen` skips the size/alignment assertion when `uses_any_template_parameters(item)`, i.e. when the
+    item's set in the used-template-parameters analysis is not empty.  The sets therefore have to hold template PARAMETERS only:
+    every insertion is either the item itself under the `TypeKind::TypeParam` arm or elements of another item's set.  Inserting a
+    template ARGUMENT as such (`Some(a).into_iter().chain(..)` for a blocklisted template) puts `int` into the set of
+    `Holder<Vec<int>>`, which then counts as non-concrete and silently loses its assertion."""
+    from hir import pat_variants as _pv
+    prog = rep.prog
+    bodies = [b for p, b in prog.bodies.items() if "ir::analysis::template_params::UsedTemplateParameters" in p and
+              (b.fact.get("impl_self") or "").startswith("ir::analysis::template_params::UsedTemplateParameters")]
+    rep.need(bodies, "methods of UsedTemplateParameters")
+    n = 0
+    for b in sorted(bodies, key=lambda x: x.path):
+        for c in b.nodes:
+            if c["k"] != "MCall" or c.get("name") not in ("insert", "extend"):
+                continue
+            rty = (b.ty(c["recv"]) or "").replace("&mut ", "").replace("&", "")
+            if not (rty.endswith("ItemSet") or rty == "std::collections::BTreeSet<ir::context::ItemId>"):
+                continue
+            if b.path.endswith("::new") or "take_this_id_usage_set" in b.path:
+                continue
+            n += 1
+            fn = b.path.split("::")[-1]
+            arg = c["args"][0]
+            # everything the inserted value is made of
+            srcs, todo, seen = [], [arg], set()
+            while todo:
+                e = todo.pop()
+                srcs.append(e)
+                for x in b.walk(e):
+                    if x["k"] == "Local" and x["id"] not in seen:
+                        seen.add(x["id"])
+                        d = b.local_def.get(x["id"])
+                        if d and d[0][0] in ("let", "letcond") and d[0][1].get("init") is not None:
+                            todo.append(d[0][1]["init"])
+            text = " ".join(b.canon(e, 10) for e in srcs) + " " + " ".join(b.canon(x, 6) for e in srcs for x in b.walk(e) if x["k"] in ("MCall", "Field"))
+            if c["name"] == "insert":
+                from hir import pat_str as _ps
+                under_tp = any(kind == "arm" and "TypeKind::TypeParam" in _ps(g[0]["arms"][g[1]]["pat"]) and "|" not in _ps(g[0]["arms"][g[1]]["pat"])
+                               for pol, kind, g in b.guards(c))
+                ok = under_tp
+                how = "the item itself, under the TypeKind::TypeParam arm" if ok else "`%s` outside a TypeParam arm" % b.canon(arg, 3)[:50]
+            else:
+                from_sets = "UsedTemplateParameters::used" in text and ("::get(" in text or "get(" in text)
+                # anything chained in front of / beside the other set's elements
+                foreign = [x for e in srcs for x in b.walk(e) if x["k"] == "MCall" and x.get("name") in ("chain", "once", "push") or
+                           (x["k"] == "Call" and str(x.get("ctor") or x.get("callee") or "").endswith("::Some") and
+                            any(a["k"] == "MCall" and a.get("name") in ("into_iter", "chain") for a in b.ancestors(x)))]
+                ok = from_sets and not foreign
+                how = "elements of other items' sets" if ok else ("elements of other sets plus `%s`" % b.canon(foreign[0], 3)[:50] if foreign and from_sets
+                                                                  else "`%s`" % b.canon(arg, 3)[:60])
+            rep.check(ok, "used-set-insert:%s#%d" % (fn, n), "inserts %s" % how if ok else
+                      "inserts %s: something that is not a template parameter enters a set whose non-emptiness means \"not concrete\"" % how, b.loc(c))
+    rep.need(n >= 4, "insertions into used-template-parameter sets (constrain_* and constrain)")
